@@ -11,8 +11,15 @@ import z3
 _counter = itertools.count(1)
 
 
+_per_prefix = {}
+
+
 def fresh_name(prefix: str) -> str:
-    return f"{prefix}!{next(_counter)}"
+    """fresh symbol name, numbered per prefix: the k-th symbol of a given kind has the same name on every path and on
+    both sides of a product proof, independent of unrelated allocations in between"""
+    n = _per_prefix.get(prefix, 0) + 1
+    _per_prefix[prefix] = n
+    return f"{prefix}!{n}"
 
 
 _idents = itertools.count(1)
@@ -26,6 +33,7 @@ def reset_names():
     global _counter, _idents
     _counter = itertools.count(1)
     _idents = itertools.count(1)
+    _per_prefix.clear()
 
 
 class Sym:
